@@ -26,6 +26,11 @@ Definition seg {A} (s : string) (o : outcome A) : outcome A := map_err (add_seg 
 Definition rewrap {A} (c : bool) (o : outcome A) : outcome A :=
   map_err (fun e => mkErr c [] (e_class e)) o.
 
+(* D67 (repaired): &ConstraintError{Message: ...err..., Path: constraintErrorPath(err)} - a fresh
+   constraint error that keeps the path of the nested one *)
+Definition rewrap_path {A} (o : outcome A) : outcome A :=
+  map_err (fun e => mkErr true (if e_constraint e then e_path e else []) (e_class e)) o.
+
 Definition zlen {A} (l : list A) : Z := Z.of_nat (List.length l).
 Definition size_ok (mn mx : option Z) (n : Z) : bool := ole mn n && oge mx n.
 
@@ -185,9 +190,9 @@ Fixpoint any_conv (fuel : nat) (v : gval) {struct fuel} : outcome gval :=
   | S f =>
     match kind_of v with
     | KInt I64 => match v with VInt _ z => Ok (vi64 z) | _ => Err (cerr ERepr) end      (* D07 repaired: t.Int() *)
-    (* the mappers' own errors are plain errors here (any.go passes them through unwrapped) *)
-    | KInt _ => match int_mapper None v with Some z => Ok (vi64 z) | None => Err (perr ERepr) end
-    | KF32 => match float_mapper (fun _ _ => None) None v with Some x => Ok (vf64 x) | None => Err (perr ERepr) end
+    (* the mappers' own errors are wrapped in a ConstraintError (D53 repaired; any.go used to pass them through) *)
+    | KInt _ => match int_mapper None v with Some z => Ok (vi64 z) | None => Err (cerr ERepr) end
+    | KF32 => match float_mapper (fun _ _ => None) None v with Some x => Ok (vf64 x) | None => Err (cerr ERepr) end
     | KF64 => match conv_float64 v with Some x => Ok (vf64 x) | None => Err (cerr ERepr) end
     | KString => match v with VStr _ s => Ok (vstr s) | _ => Err (cerr ERepr) end         (* D07 repaired: t.String() *)
     | KBool => bool_ser v
@@ -339,7 +344,7 @@ Fixpoint unser (fuel : nat) (e : env) (s : schema) (v : gval) {struct fuel} : ou
         end
     | SOneOf types ik field inlined =>
         match v with
-        | VNil => Err (perr ERepr)
+        | VNil => Err (cerr ERepr)                  (* D66 (repaired): a constraint error, not fmt.Errorf *)
         | VMap _ _ kvs =>
             (* D09 (repaired): keys are checked before the discriminator is looked up *)
             if forallb (fun kv => match fst kv with VStr TStr _ => true | _ => false end) kvs then
@@ -466,7 +471,7 @@ with oneof_find (fuel : nat) (e : env) (types : list (okey * schema)) (ik : bool
                       | None => Err (cerr EKey)
                       | Some (_, member) =>
                           let clone := VMap t_str_map false (if inlined then kvs else smap_del field kvs) in
-                          _ <- rewrap true (compat f e member clone) ;;
+                          _ <- rewrap_path (compat f e member clone) ;;
                           Ok (key, member, clone)
                       end
                   end
@@ -630,17 +635,17 @@ with compat (fuel : nat) (e : env) (s : schema) (v : gval) {struct fuel} : outco
             _ <- forM_ (fun kv => match alookup (fst kv) props with
                                   | Some p =>
                                       seg (fst kv)
-                                        (_ <- rewrap true (compat f e (p_type p) (snd kv)) ;;
+                                        (_ <- rewrap_path (compat f e (p_type p) (snd kv)) ;;
                                          if p_disabled p then Err (cerr EDisabled) else Ok tt)
                                   | None => Err (cerr EKey)
                                   end) r ;;
             forM_ (fun np => if p_required (snd np)
                              then match alookup (fst np) r with
-                                  | None | Some VNil => Err (cerr EPresence)
+                                  | None | Some VNil => Err (cerr_at [fst np] EPresence)
                                   | Some _ => Ok tt
                                   end
                              else Ok tt) props
-        | None => _ <- rewrap true (unser f e s v) ;; Ok tt
+        | None => _ <- rewrap_path (unser f e s v) ;; Ok tt
         end
     | SOneOf types ik field inlined =>
         match is_str_any_map v with
